@@ -36,6 +36,7 @@ public:
         Rng r(seed);
         Plan p;
         p.set_knob("user_mem", (s64)r.chance(1, 4));
+        const bool paging = r.chance(1, 3); // a third of the plans also switch the paging mode and the X/Y pages
         int n = (int)r.range(4, tier.thorough ? 200 : 70);
         // a few hot cells so that different parties meet on the same addresses
         std::vector<u32> hot;
@@ -88,7 +89,19 @@ public:
                 p.add("fetch", {(s64)(r.chance(1, 2) ? 0x20000 + (data_addr() & 0x1FFF0) : 0x2000 + r.below(0x1D000)), (s64)r.below(3), v});
             else if (x < 88)
                 p.add("dma", {data_addr(), data_addr(), (s64)r.range(1, 6)});
-            else if (x < 91)
+            else if (x < 91 && paging && r.chance(1, 2)) {
+                switch (r.below(3)) {
+                case 0:
+                    p.add("pmode", {(s64)r.below(2)});
+                    break;
+                case 1:
+                    p.add("xpage", {(s64)r.below(2)});
+                    break;
+                default:
+                    p.add("ypage", {(s64)r.below(2)});
+                    break;
+                }
+            } else if (x < 91)
                 p.add("zpage", {(s64)r.below(2)});
             else if (x < 94) {
                 const u16 bases[] = {0x8000, 0x0000, 0x0400, 0x4000, 0xF800, 0xFC00, 0x7C00};
@@ -119,6 +132,10 @@ public:
         std::vector<u8> model(0x80000, 0);
         u16 base = 0x8000;
         int z = 0;
+        // paging mode 1 (miu.md): X memory (the low x_size K-words, reset value 0x20) is on XPAGE, Y memory (the top y_size
+        // K-words, reset value 0x1E) on YPAGE. What lies between (Z memory, 0x8000..0x87FF with the reset sizes) is not judged
+        // in mode 1: the document gives it to ZPAGE, the emulator to YPAGE, and nothing settles which is right.
+        int pgm = 0, xp = 0, yp = 0;
         std::string dead;
         u64 cross_reads = 0, compares = 0;
         Hasher pairs;
@@ -132,7 +149,12 @@ public:
             model[w * 2 + 1] = (u8)(v >> 8);
             writer[w] = who;
         };
-        auto data_flat = [&](u16 a) -> u32 { return 0x20000u + (u32)z * 0x10000u + a; };
+        auto data_flat = [&](u16 a) -> u32 {
+            if (!pgm)
+                return 0x20000u + (u32)z * 0x10000u + a;
+            return 0x20000u + (u32)(a < 0x8000 ? xp : yp) * 0x10000u + a;
+        };
+        auto judged = [&](u16 a) { return !pgm || a < 0x8000 || a >= 0x8800; };
         auto in_mmio = [&](u16 a) { return a >= base && (u32)a < (u32)base + 0x800; };
         auto check_read = [&](std::size_t si, const char* what, u32 w, u16 got, u8 who) {
             log.add(got);
@@ -183,7 +205,7 @@ public:
                 } else if (s.op == "dw") {
                     u16 a = (u16)s.arg(0);
                     bool bypass = s.arg(2) != 0;
-                    if (in_mmio(a) && !bypass)
+                    if ((in_mmio(a) && !bypass) || !judged(a))
                         continue; // handled by the mmiow op
                     t.DataWrite(a, (u16)s.arg(1), bypass);
                     mset(data_flat(a), (u16)s.arg(1), HostData);
@@ -192,8 +214,10 @@ public:
                 } else if (s.op == "dr") {
                     u16 a = (u16)s.arg(0);
                     bool bypass = s.arg(2) != 0;
-                    if (in_mmio(a) && !bypass)
+                    if ((in_mmio(a) && !bypass) || !judged(a))
                         continue;
+                    if (pgm)
+                        out.probes["paged_mode1_access"]++;
                     check_read(si, bypass ? "DataRead(bypass)" : "DataRead", data_flat(a), t.DataRead(a, bypass), HostData);
                 } else if (s.op == "aw") {
                     u32 a = (u32)s.arg(0);
@@ -215,8 +239,10 @@ public:
                     u16 a = (u16)s.arg(1);
                     u16 v = (u16)s.arg(2);
                     bool store = s.op == "gst";
-                    if (in_mmio(a) || (form == 4 && (in_mmio((u16)(a + 1)) || in_mmio((u16)(a - 1)))))
+                    if (in_mmio(a) || (form == 4 && (in_mmio((u16)(a + 1)) || in_mmio((u16)(a - 1)))) || !judged(a))
                         continue; // window accesses are judged by mmiow
+                    if (pgm)
+                        out.probes["paged_mode1_access"]++;
                     Asm g;
                     g.org(0x1F00);
                     int cycles = 0;
@@ -291,6 +317,8 @@ public:
                         continue; // entirely inside the window: registers with side effects, judged by mmiow
                     if ((ma || ma2) && z != 0)
                         continue; // the DSP-side window is only defined for page 0
+                    if ((!ma && !judged(a)) || (!ma2 && !judged(a2)))
+                        continue;
                     bool store = s.op == "gst2";
                     u16 vh = (u16)s.arg(2), vl = (u16)s.arg(3);
                     // the register behind a window half is 0x7FF (upper edge) or 0x000 (lower edge): plain storage cells
@@ -351,7 +379,7 @@ public:
                             // the data view aliases program words 0x20000..0x3FFFF
                             if (r_is_a32(si))
                                 t.DataWriteA32(w - 0x20000, code[i]);
-                            else if (w - 0x20000 < 0x10000 && z == 0 && !in_mmio((u16)(w - 0x20000)))
+                            else if (w - 0x20000 < 0x10000 && z == 0 && !pgm && !in_mmio((u16)(w - 0x20000)))
                                 t.DataWrite((u16)(w - 0x20000), code[i]);
                             else
                                 t.DataWriteA32(w - 0x20000, code[i]);
@@ -402,6 +430,18 @@ public:
                     t.MMIOWrite(0x112, (u16)z);
                     out.faults_configured["relocate"]++;
                     out.faults_fired["relocate"]++;
+                } else if (s.op == "pmode") {
+                    pgm = (int)(s.arg(0) & 1);
+                    t.MMIOWrite(0x11A, (u16)(pgm ? 0x0040 : 0));
+                    out.faults_configured["relocate"]++;
+                    out.faults_fired["relocate"]++;
+                    out.probes["paging_mode_switched"]++;
+                } else if (s.op == "xpage" || s.op == "ypage") {
+                    int v = (int)(s.arg(0) & 1);
+                    (s.op == "xpage" ? xp : yp) = v;
+                    t.MMIOWrite(s.op == "xpage" ? 0x10E : 0x110, (u16)v);
+                    out.faults_configured["relocate"]++;
+                    out.faults_fired["relocate"]++;
                 } else if (s.op == "reloc") {
                     base = (u16)(s.arg(0) & 0xFC00);
                     t.MMIOWrite(0x11E, base);
@@ -411,7 +451,7 @@ public:
                     // a data access inside the window reaches the register, not the memory underneath
                     u16 off = (u16)(s.arg(0) & 0x7FE);
                     u16 v = (u16)s.arg(1);
-                    if (z != 0 || (u32)base + off > 0xFFFF)
+                    if (z != 0 || (u32)base + off > 0xFFFF || !judged((u16)(base + off)))
                         continue; // the DSP-side window is only defined for page 0
                     u16 a = (u16)(base + off);
                     u16 under = mword(data_flat(a));
@@ -448,6 +488,7 @@ public:
             Hasher sg;
             sg.add(hash_str(s.op.c_str()));
             sg.add((u64)z);
+            sg.add((u64)(pgm * 4 + xp * 2 + yp));
             sg.add(base >> 10);
             out.state_sigs.insert(sg.h);
         }
